@@ -17,7 +17,7 @@ TIGHT = float(os.environ.get("VP_C07_TIGHT", "1"))
 PROPERTY = "C07"
 RULE = (
     "one mode with fn in [0.04,0.25] fs, xi in [2 %,5 %], half-power bandwidth >= 4 lines, >= 30 periods in the half record, 2..6 channels, "
-    "real shapes, segment lengths 1024..8192, drawn fs, DF2 in [4,8] bandwidths inside the grid or (a quarter of the cases) reaching past the lower / upper end of the frequency axis, default sppk/npmax/MAClim, methodSy 'per'; "
+    "real shapes, segment lengths 1024..8192 (powers of two and 1200, 1500, 2000, 3000, 6000), drawn fs, DF2 in [4,8] bandwidths inside the grid or (a quarter of the cases) reaching past the lower / upper end of the frequency axis, default sppk/npmax/MAClim, methodSy 'per'; "
     "Sy = S(f) phi phi^T + 1e-9 max(S) I with the analytic displacement PSD of a white-noise driven SDOF; every case is non-trivial (distinct parameters)"
 )
 ASSUMPTIONS = [
@@ -28,7 +28,7 @@ ASSUMPTIONS = [
 
 @st.composite
 def bell_case(draw):
-    nxseg = draw(st.sampled_from([1024, 2048, 4096, 8192]))
+    nxseg = draw(st.sampled_from([1024, 2048, 4096, 8192, 1200, 1500, 2000, 3000, 6000]))  # segment lengths need not be powers of two
     xi = draw(st.floats(0.02, 0.05))
     # constraints: 2*xi*fr*nxseg >= 4 (bandwidth >= 4 lines); fr*nxseg >= 60 (30 periods in the half record)
     lo = max(0.04, 4.0 / (2 * xi * nxseg), 60.0 / nxseg)
